@@ -171,7 +171,11 @@ func genC10Focused(t *rapid.T) Scenario {
 	y := 1 - x
 	w := func() int { return rapid.SampledFrom([]int{0, 30, 150, 500, 1100, 1700}).Draw(t, "fw") }
 	sp := func() int { return rapid.SampledFrom([]int{0, 0, 1, 2, 3}).Draw(t, "fspell") }
-	switch rapid.IntRange(0, 6).Draw(t, "focus") {
+	switch rapid.IntRange(0, 7).Draw(t, "focus") {
+	case 7: // the peer has silently gone (black hole) when the user removes the pairing or disconnects: x must end the connection on its own
+		sc.Ops = []HubOp{{K: "register", X: x, Y: y}, {K: "register", X: y, Y: x}, {K: "appear", X: x, Y: y}, {K: "appear", X: y, Y: x, WaitMs: 1300},
+			{K: "disappear", X: x, Y: y}, {K: "freeze", X: x, Y: y, WaitMs: rapid.SampledFrom([]int{0, 200}).Draw(t, "w8")},
+			{K: rapid.SampledFrom([]string{"unregister", "unregister", "cancel"}).Draw(t, "revoke"), X: x, Y: y, WaitMs: 2500, Spell: sp()}}
 	case 5: // the link to y is slow: the user withdraws the pairing while x's dial is still on its way; y would accept at once
 		sc.AutoAccept[y] = rapid.Bool().Draw(t, "peerAuto")
 		slow := rapid.SampledFrom([]int{150, 400, 900}).Draw(t, "slowMs")
